@@ -280,6 +280,9 @@ pub struct Cfg {
     /// A second animated entity: plain `Animator<Target>` (no selector, no chain) playing
     /// `tls[index]`, spawned before or after the main entity.
     pub extra_entity: Option<(usize, bool)>,
+    /// A crowd of identically configured plain animated entities `(timeline, how many)`: more
+    /// animators of one type than a handful; they must all behave like one.
+    pub crowd: Option<(usize, u8)>,
     /// The extra entity is not there from the start but spawned by a `SpawnExtra` operation.
     pub extra_spawned_late: bool,
     /// An orphan: an entity with an enabled `Animator<Target>` (playing `tls[index]`) but no
@@ -445,6 +448,13 @@ pub fn scn_to_json(s: &BScn) -> Json {
         .set("selector_animator_prebuilt", c.selector_animator_prebuilt)
         .set("second_animator", c.second.as_ref().map(other_to_json).unwrap_or(Json::Null))
         .set("extra_entity_spawned_late", c.extra_spawned_late)
+        .set(
+            "crowd",
+            match c.crowd {
+                Some((tl, n)) => Json::Arr(vec![Json::from(tl), Json::from(n as usize)]),
+                None => Json::Null,
+            },
+        )
         .set(
             "orphan_animator_without_target",
             match c.orphan {
@@ -643,6 +653,16 @@ pub fn scn_from_json(j: &Json) -> Result<BScn, String> {
             None | Some(Json::Null) => None,
             Some(v) => Some(v.as_bool()?),
         },
+        crowd: match c.get("crowd") {
+            None | Some(Json::Null) => None,
+            Some(v) => {
+                let a = v.as_arr()?;
+                if a.len() != 2 {
+                    return Err("crowd: [timeline, count] expected".into());
+                }
+                Some((a[0].as_i64()? as usize, a[1].as_i64()? as u8))
+            }
+        },
         extra_entity: match c.get("extra_plain_entity") {
             None | Some(Json::Null) => None,
             Some(v) => Some((
@@ -734,6 +754,7 @@ pub struct SimWorld {
     pub app: App,
     pub entity: Entity,
     pub extra: Option<Entity>,
+    pub crowd: Vec<Entity>,
     pub mirror: Option<Entity>,
     pub bystander: Entity,
     pub lone_other: Option<Entity>,
@@ -984,6 +1005,20 @@ pub fn build_world(cfg: &Cfg) -> SimWorld {
         insert_selector_only(cfg, &mut e);
         e.id()
     });
+    // the crowd: spawned last, all alike
+    let crowd: Vec<Entity> = match cfg.crowd {
+        Some((tl, n)) => (0..n)
+            .map(|_| {
+                app.world
+                    .spawn((
+                        target_of(&cfg.initial),
+                        Animator::<Target>::with_timeline(build_target_merged(&cfg.tls[tl])),
+                    ))
+                    .id()
+            })
+            .collect(),
+        None => Vec::new(),
+    };
     let reader = app
         .world
         .resource::<Events<AnimationStateChanged>>()
@@ -992,6 +1027,7 @@ pub fn build_world(cfg: &Cfg) -> SimWorld {
         app,
         entity,
         extra,
+        crowd,
         mirror,
         bystander,
         lone_other,
